@@ -170,7 +170,12 @@ impl Prop for C02 {
                 dynp::reset_steps(LR_STEPS);
                 let res = match guarded(|| dynp::lr_parse(inp, RunOpts { partial, skip_ws: true })) {
                     Ok(r) => r,
-                    Err(p) => match parse_panic(&format!("parse|partial={partial}"), &p, st) {
+                    Err(p) => match {
+                        if std::env::var_os("VERIF_DEBUG_HANG").is_some() && is_step_panic(&p) {
+                            eprintln!("HANG-LR grammar:\n{text}\nps={} pse={} input {inp:?}", case.ps, case.pse);
+                        }
+                        parse_panic(&format!("parse|partial={partial}"), &p, st)
+                    } {
                         Some(o) => return o,
                         None => {
                             // a looping table loops on (nearly) every input: give up on this grammar
